@@ -8,6 +8,8 @@ import (
 	"fmt"
 	"go/ast"
 	"go/token"
+	"os"
+	"sort"
 	"strconv"
 	"strings"
 
@@ -282,8 +284,87 @@ inductive S where
 		sb.WriteString("]\n\n")
 	}
 	inputLoop(c, vx, &sb)
+	savedWrites(c, &sb)
 	sb.WriteString("end VaxisModel.Gen.Modes\n")
 	c.Write("Modes.lean", sb.String())
+}
+
+// savedWrites lists every site in the package (non-test, non-verif files of the repository root) that
+// writes one of the "saved original value" fields which shutdown formats into restore sequences:
+// vx.appIDLast, vx.userCursorStyle, vx.kittyFlags, vx.mouseShapeLast. Assignments, compound
+// assignments, ++/-- and composite-literal keys are all reported as (field, function, statement).
+func savedWrites(c *ex.Ctx, sb *strings.Builder) {
+	fields := map[string]bool{"appIDLast": true, "userCursorStyle": true, "kittyFlags": true}
+	ents, err := os.ReadDir(c.Repo)
+	if err != nil {
+		c.Fail("read %s: %v", c.Repo, err)
+		return
+	}
+	var names []string
+	for _, e := range ents {
+		n := e.Name()
+		if e.IsDir() || !strings.HasSuffix(n, ".go") || strings.HasSuffix(n, "_test.go") || strings.HasPrefix(n, "verif_") {
+			continue
+		}
+		names = append(names, n)
+	}
+	sort.Strings(names)
+	var rows []string
+	for _, n := range names {
+		f := c.Parse(n)
+		if f == nil || f.Name.Name != "vaxis" {
+			continue
+		}
+		for _, d := range f.Decls {
+			fd, ok := d.(*ast.FuncDecl)
+			if !ok || fd.Body == nil {
+				continue
+			}
+			add := func(field string, st ast.Node) {
+				rows = append(rows, fmt.Sprintf("(%s, %s, %s)", ex.LeanStr(field), ex.LeanStr(fd.Name.Name), ex.LeanStr(firstLine(c.Src(st)))))
+			}
+			sel := func(e ast.Expr) string {
+				if se, ok := e.(*ast.SelectorExpr); ok && fields[se.Sel.Name] {
+					return se.Sel.Name
+				}
+				return ""
+			}
+			ast.Inspect(fd.Body, func(nd ast.Node) bool {
+				switch st := nd.(type) {
+				case *ast.AssignStmt:
+					for _, l := range st.Lhs {
+						if fn := sel(l); fn != "" {
+							add(fn, st)
+						}
+					}
+				case *ast.IncDecStmt:
+					if fn := sel(st.X); fn != "" {
+						add(fn, st)
+					}
+				case *ast.KeyValueExpr:
+					if id, ok := st.Key.(*ast.Ident); ok && fields[id.Name] {
+						add(id.Name, st)
+					}
+				case *ast.UnaryExpr:
+					if st.Op == token.AND {
+						if fn := sel(st.X); fn != "" {
+							add(fn, st) // address taken: could be written through the pointer
+						}
+					}
+				}
+				return true
+			})
+		}
+	}
+	sb.WriteString("/-- Every site that writes a saved original value (field, enclosing function, statement). -/\ndef savedValueWrites : List (String × String × String) := [\n")
+	for i, r := range rows {
+		sep := ","
+		if i == len(rows)-1 {
+			sep = ""
+		}
+		fmt.Fprintf(sb, "  %s%s\n", r, sep)
+	}
+	sb.WriteString("]\n\n")
 }
 
 // inputLoop extracts the skeleton of the input goroutine started by openTty: the statements the
